@@ -263,6 +263,19 @@ fn build_builder(path: String, field: &Field) -> Result<ArrayBuilder> {
         }
         T::Struct(children) => A::Struct(build_struct(path, children, field.nullable)?),
         T::Dictionary(key, value) => {
+            if !matches!(
+                **key,
+                T::Int8
+                    | T::Int16
+                    | T::Int32
+                    | T::Int64
+                    | T::UInt8
+                    | T::UInt16
+                    | T::UInt32
+                    | T::UInt64
+            ) {
+                fail!(in ctx, "Dictionary keys must be integers, found {key:?}");
+            }
             let key_path = format!("{path}.key");
             let key_field = Field {
                 name: "key".to_string(),
